@@ -25,14 +25,23 @@ BOUNDS = {
     'thorough': [(k, L, K, carbon) for k in KINDS for (L, K) in ((2, 1), (2, 2), (3, 1), (3, 2), (4, 1), (3, 3))
                  for carbon in (False, True) if not (carbon and L + K >= 5 and k.startswith('cogen'))],
 }
+ADDON_KINDS = ['electricity', 'direct-use', 'heat-pump', 'district-heating', 'cogen-topping', 'cogen-parallel']
+ADDON_BOUNDS = {
+    'quick': [('electricity', 2, 1, False, 1), ('cogen-topping', 1, 1, False, 1), ('direct-use', 1, 2, False, 2), ('heat-pump', 1, 1, False, 1)],
+    'thorough': [(k, L, K, False, a) for k in ADDON_KINDS for (L, K, a) in ((2, 1, 1), (2, 2, 1), (3, 1, 2), (3, 2, 1))] + [('electricity', 2, 1, True, 1)],
+}
 META = {
     'explanation': 'The real Economics.Calculate runs on a real Model (reservoir, wellbores and surface plant calculated concretely '
                    'once; their yearly energy outputs then replaced by independent symbolic reals) with total capital cost, O&M, grants, '
                    'price schedules, carbon settings, discount rate and the NPV-convention flag symbolic; numpy_financial.irr is a stub '
                    'with its documented contract. Every path through the pricing clamps, the IRR-NaN branch and the payback loop is '
                    'explored; per path z3 proves that the reported cash-flow series, cumulative series, NPV, IRR, VIR, MOIC and payback '
-                   'satisfy the definitions stated in the property over the reported quantities.',
-    'bounds': {t: {'(kind, L lifetime, K construction years, carbon)': [list(x) for x in BOUNDS[t]], 'time steps per year': 2} for t in BOUNDS},
+                   'satisfy the definitions stated in the property over the reported quantities. Add-on configurations: the real '
+                   'EconomicsAddOns.Calculate runs inside the same call with every add-on CAPEX/OPEX/electricity/heat/profit value symbolic; '
+                   'the add-on and extended-project series, totals, NPV (both conventions), IRR, VIR, MOIC and add-on payback are proved '
+                   'against their definitions over the reported (post-add-on) energy series.',
+    'bounds': {t: {'(kind, L lifetime, K construction years, carbon)': [list(x) for x in BOUNDS[t]],
+                   'with add-ons (kind, L, K, carbon, number of add-ons)': [list(x) for x in ADDON_BOUNDS[t]], 'time steps per year': 2} for t in BOUNDS},
     'outside': ['L, K beyond the listed pairs', 'IEEE rounding', 'S-DAC-GT', 'AGS/SUTRA economics',
                 'the numeric root-finder inside numpy_financial.irr (contract stub)'],
     'assumptions': ['real arithmetic', 'npf.irr(series) returns NaN or r > -1 with sum(series_t*(1+r)^-t) = 0 for the series it was handed',
@@ -54,9 +63,11 @@ def products_of(kind):
     return ['Heat']
 
 
-def cfg_of(kind, L, K, carbon, **kw):
+def cfg_of(kind, L, K, carbon, addon=0, **kw):
     eu, pt = KINDS[kind]
     c = {'kind': kind, 'eu': eu, 'pt': pt, 'em': 2, 'L': L, 'K': K, 'T': 2, 'carbon': bool(carbon)}
+    if addon:
+        c['addon'] = addon
     c.update(kw)
     return c
 
@@ -66,9 +77,15 @@ def spec_of(cfg):
     s = [('economics.totalcapcost', 'real', 0, 1000), ('economics.oamtotalfixed', 'real', 0, 100),
          ('economics.TotalGrant', 'real', -1000, 1000), ('economics.FixedInternalRate', 'real', 0, 100),
          ('economics.discount_initial_year_cashflow', 'bool', None, None)]
+    if cfg.get('addon'):
+        # the pricing clamps and grants are explored in the configurations without add-ons: here one symbolic flat price per product
+        s = [x for x in s if 'TotalGrant' not in x[0]]
     for p in products_of(cfg['kind']):
-        s += [(f'economics.{p}StartPrice', 'real', 0, 100), (f'economics.{p}EndPrice', 'real', 0, 100),
-              (f'economics.{p}EscalationRate', 'real', 0, 100)]
+        if cfg.get('addon'):
+            s += [(f'economics.{p}StartPrice', 'real', 0, 100)]
+        else:
+            s += [(f'economics.{p}StartPrice', 'real', 0, 100), (f'economics.{p}EndPrice', 'real', 0, 100),
+                  (f'economics.{p}EscalationRate', 'real', 0, 100)]
         s += [(f'surfaceplant.{PRODUCTS[p]}[{i}]', 'real', None, None) for i in range(L)]
     if cfg['carbon']:
         s += [('economics.CarbonStartPrice', 'real', 0, 1000), ('economics.CarbonEndPrice', 'real', 0, 1000),
@@ -77,7 +94,13 @@ def spec_of(cfg):
         for arr in ('NetkWhProduced', 'HeatkWhProduced'):
             if not any(x[0].startswith(f'surfaceplant.{arr}[') for x in s):
                 s += [(f'surfaceplant.{arr}[{i}]', 'real', None, None) for i in range(L)]
+    for j in range(cfg.get('addon', 0)):
+        # the reader takes these straight from float(): no range is enforced on them
+        s += [(f'addeconomics.{a}[{j}]', 'real', None, None) for a in ADDON_LISTS]
     return s
+
+
+ADDON_LISTS = ['AddOnCAPEX', 'AddOnOPEXPerYear', 'AddOnElecGainedPerYear', 'AddOnHeatGainedPerYear', 'AddOnProfitGainedPerYear']
 
 
 FIXED = {'economics.totalcapcost.Valid': True, 'economics.oamtotalfixed.Valid': True,
@@ -99,6 +122,18 @@ def drive(cfg, vals, symbolic):
     m = pr.reset()
     v = dict(vals)
     v.update(FIXED)
+    if cfg.get('addon'):
+        for p in products_of(cfg['kind']):
+            v[f'economics.{p}EndPrice'] = 100.0
+            v[f'economics.{p}EscalationRate'] = 0.0
+        v['economics.TotalGrant'] = 0.0
+        for arr in ('TotalkWhProduced', 'NetkWhProduced', 'HeatkWhProduced'):     # the add-on code adds (symbolic) add-on energy into these in place
+            cur = getattr(m.surfaceplant, arr).value
+            if symbolic and hasattr(cur, '__len__') and not isinstance(cur, core.SymArray):
+                getattr(m.surfaceplant, arr).value = core.as_symarray([float(x) for x in cur])
+        # one input file: the add-on object reads the same discount rate and NPV convention
+        v['addeconomics.FixedInternalRate'] = vals['economics.FixedInternalRate']
+        v['addeconomics.discount_initial_year_cashflow'] = vals['economics.discount_initial_year_cashflow']
     econ.install(m, v)
     econ.run_econ(m, symbolic=symbolic)
     return m
@@ -160,6 +195,96 @@ def obligations(cfg, m):
     out.append(('payback = N/A (0) when cumulative cash flow never turns positive', sor(*cross, eq(pb, 0.0))))
     out.append(('payback lies within a year in which cumulative cash flow turns positive', sor(eq(pb, 0.0), *within)))
     out.append(('a payback period is reported when cumulative cash flow turns positive', sor(snot(sor(*cross)), pb > 0)))
+    if cfg.get('addon'):
+        out += addon_obligations(cfg, m, price)
+    return out
+
+
+def _far(a, b):
+    """a witness that survives float rounding: the two sides differ by more than 0.5 while staying of moderate size."""
+    if not (core.is_sym(a) or core.is_sym(b)):
+        return None
+    d = core.lift(a) - core.lift(b)
+    lb = core.lift(b)
+    return z3.And(z3.Or(d > 0.5, d < -0.5), lb < 1000, lb > -1000)
+
+
+def _irr_robust(series, irr):
+    if not core.is_sym(irr):
+        return None
+    r = core.lift(irr)
+    s0 = core.lift(series[0])
+    rt = _is_root(series, irr / 100)
+    rt = rt.t if isinstance(rt, core.SymBool) else z3.BoolVal(bool(rt))
+    return z3.And(r > 0.1, r < 1, s0 < -1, s0 > -1000, z3.Not(rt))
+
+
+def _tot(xs):
+    xs = list(xs)
+    return sum(xs[1:], xs[0])
+
+
+def addon_obligations(cfg, m, price):
+    """add-on and extended-project figures (EconomicsAddOns.Calculate) against their definitions over the reported quantities."""
+    e, sp, a = m.economics, m.surfaceplant, m.addeconomics
+    L, K = cfg['L'], cfg['K']
+    N = L + K
+    kind = cfg['kind']
+    C, O = e.CCap.value, e.Coam.value
+    sC, sO, sE, sH, sP = (_tot(getattr(a, n).value) for n in ADDON_LISTS)
+    out = []
+    for nm, tot, rep in (('CAPEX', sC, a.AddOnCAPEXTotal), ('OPEX', sO, a.AddOnOPEXTotalPerYear), ('electricity', sE, a.AddOnElecGainedTotalPerYear),
+                         ('heat', sH, a.AddOnHeatGainedTotalPerYear), ('profit', sP, a.AddOnProfitGainedTotalPerYear)):
+        out.append((f'add-ons: total add-on {nm} is the sum over the add-ons', eq(rep.value, tot)))
+    out.append(('add-ons: adjusted project CAPEX = CCap + add-on CAPEX', eq(a.AdjustedProjectCAPEX.value, C + sC)))
+    out.append(('add-ons: adjusted project OPEX = O&M + add-on OPEX', eq(a.AdjustedProjectOPEX.value, O + sO)))
+    sells_elec = kind == 'electricity' or kind.startswith('cogen')
+    sells_heat = kind != 'electricity'
+    AR, ACF, ACUM = list(a.AddOnRevenue.value), list(a.AddOnCashFlow.value), list(a.AddOnCummCashFlow.value)
+    PCF, PCUM = list(a.ProjectCashFlow.value), list(a.ProjectCummCashFlow.value)
+    out.append(('add-ons: series lengths', len(AR) == L and len(ACF) == N and len(ACUM) == N and len(PCF) == N and len(PCUM) == N))
+    for i in range(L):
+        er = (sE * price['Elec'][K + i] / 1_000_000.0) if sells_elec else 0.0
+        hr = (sH * price['Heat'][K + i] / 1_000_000.0) if sells_heat else 0.0
+        out.append((f'add-ons: add-on electricity revenue year {i} = add-on electricity x price', eq(a.AddOnElecRevenue.value[i], er)))
+        out.append((f'add-ons: add-on heat revenue year {i} = add-on heat x price', eq(a.AddOnHeatRevenue.value[i], hr)))
+        out.append((f'add-ons: add-on net revenue year {i} = energy revenue + profit - add-on OPEX', eq(AR[i], er + hr + sP - sO)))
+        out.append((f'add-ons: add-on cash flow operating year {i}', eq(ACF[K + i], AR[i])))
+        # the extended project's cash flow: every product's reported (post-add-on) energy sold at that year's price, plus add-on profit,
+        # minus O&M of plant and add-ons
+        rev = 0.0
+        if sells_elec:
+            rev = rev + sp.NetkWhProduced.value[i] * price['Elec'][K + i] / 1_000_000.0
+        if sells_heat:
+            rev = rev + sp.HeatkWhProduced.value[i] * price['Heat'][K + i] / 1_000_000.0
+        want = rev + sP - sO - O
+        out.append((f'add-ons: project cash flow (including add-ons) operating year {i} = revenue of the reported energy + add-on profit - all O&M',
+                    eq(PCF[K + i], want), 'C04-addon-energy-revenue-counted-twice', _far(PCF[K + i], want)))
+        out.append((f'add-ons: project cash flow (including add-ons) operating year {i} deviates from its definition by exactly the add-on energy revenue (recorded finding)',
+                    sor(eq(PCF[K + i], want), eq(PCF[K + i], want + er + hr))))
+    for i in range(K):
+        out.append((f'add-ons: add-on cash flow construction year {i} = -add-on CAPEX/K', eq(ACF[i], -1.0 * (sC / K))))
+        out.append((f'add-ons: project cash flow (including add-ons) construction year {i} = -(CCap + add-on CAPEX)/K', eq(PCF[i], -1.0 * ((C + sC) / K))))
+    for i in range(N):
+        out.append((f'add-ons: add-on cumulative cash flow year {i} is the running sum', eq(ACUM[i], ACF[i] if i == 0 else ACUM[i - 1] + ACF[i])))
+        out.append((f'add-ons: project cumulative cash flow (including add-ons) year {i} is the running sum', eq(PCUM[i], PCF[i] if i == 0 else PCUM[i - 1] + PCF[i])))
+    r = a.FixedInternalRate.value / 100
+    flag = a.discount_initial_year_cashflow.value
+    out.append(('add-ons: NPV (including add-ons) = sum CF_t/(1+r)^t (or t+1 with the Excel-style flag) of the reported extended series',
+                sor(sand(flag, eq(a.ProjectNPV.value, _npv(PCF, r, 1))), sand(snot(flag), eq(a.ProjectNPV.value, _npv(PCF, r, 0))))))
+    irr = a.ProjectIRR.value
+    out.append(('add-ons: reported non-zero IRR (including add-ons) zeroes the NPV of the reported extended series', sor(eq(irr, 0.0), _is_root(PCF, irr / 100)),
+                'C04-addon-irr-reported-as-fraction', _irr_robust(PCF, irr)))
+    out.append(('add-ons: the reported IRR (including add-ons) is zero, a root, or exactly a root expressed as a fraction instead of percent (recorded finding)',
+                sor(eq(irr, 0.0), _is_root(PCF, irr / 100), _is_root(PCF, irr))))
+    out.append(('add-ons: VIR (including add-ons) = 1 + NPV/adjusted CAPEX', eq(a.ProjectVIR.value, 1.0 + a.ProjectNPV.value / a.AdjustedProjectCAPEX.value)))
+    out.append(('add-ons: MOIC (including add-ons) = cumulative at end / (adjusted CAPEX + adjusted OPEX*L)',
+                eq(a.ProjectMOIC.value, PCUM[N - 1] / (a.AdjustedProjectCAPEX.value + a.AdjustedProjectOPEX.value * L))))
+    pb = a.AddOnPaybackPeriod.value
+    cross = [sand(ACUM[i] > 0, ACUM[i - 1] <= 0) for i in range(1, N)]
+    within = [sand(c, pb >= i - 1, pb <= i + 1) for i, c in zip(range(1, N), cross)]
+    out.append(('add-ons: add-on payback = 0 when the add-on cumulative cash flow never turns positive', sor(*cross, eq(pb, 0.0))))
+    out.append(('add-ons: add-on payback lies within a year in which the add-on cumulative cash flow turns positive', sor(eq(pb, 0.0), *within)))
     return out
 
 
@@ -191,7 +316,7 @@ def concrete(cfg, inputs, only=None):
         obs = obligations(cfg, m)
     except ZeroDivisionError:
         return False, {'note': 'division by zero in floats: no result'}
-    bad = [n for n, ok in obs if not ok and (only is None or n == only)]
+    bad = [o[0] for o in obs if not o[1] and (only is None or o[0] == only)]
     e = m.economics
     return bool(bad), {'failed': bad[:6], 'CCap': e.CCap.value, 'Coam': e.Coam.value,
                        'TotalRevenue': [float(x) for x in e.TotalRevenue.value],
@@ -201,7 +326,7 @@ def concrete(cfg, inputs, only=None):
 
 
 def units(tier, seed):
-    return [cfg_of(*b) for b in BOUNDS[tier]]
+    return [cfg_of(*b) for b in BOUNDS[tier]] + [cfg_of(*b) for b in ADDON_BOUNDS[tier]]
 
 
 def example_inputs(cfg):
@@ -277,14 +402,16 @@ def run_unit(unit):
                     raise core.HarnessError(f'encoding self-check failed: NPV symbolic {sv} vs float {fv}')
         elif npaths <= 40 or npaths % 25 == 0:
             harness.reachable(log, c, 2000)
-        for name, cond in obs:
+        for ob in obs:
+            name, cond, fid = ob[0], ob[1], (ob[2] if len(ob) > 2 else None)
+            rob = ob[3] if len(ob) > 3 else None
             if isinstance(cond, bool):
                 if cond:
                     log['obligations'] += 1
                     log['discharged'] += 1
                     log['trivial'] += 1
                     continue
-            harness.discharge(log, c, name, cond, zv, lambda inp, name=name: concrete(cfg, inp, only=name), timeout_ms=tmo,
+            harness.discharge(log, c, name, cond, zv, lambda inp, name=name: concrete(cfg, inp, only=name), timeout_ms=tmo, finding=fid, robust=rob,
                               sample=(npaths == 1), desc=f'{name} [{cfg["kind"]} L={cfg["L"]} K={cfg["K"]}]')
         if npaths % 200 == 0:
             yield log.result()
